@@ -22,7 +22,15 @@ def is_ident(s):
     return bool(s) and (s[0].isalpha() or s[0] == '_') and all(c.isalnum() or c == '_' for c in s) and s.isascii()
 
 
+# ordinary words that are also member names of the objects the engines use for a / b (an attribute store that keeps its own
+# state in a member called like a column, a prototype chain, a dict method) - "for every set of distinct column names"
+WORDS = ['storage', 'constructor', 'toString', 'valueOf', 'hasOwnProperty', 'length', 'keys', 'get', 'items', 'values', 'name', 'prototype',
+         '__proto__', 'self', 'record', 'fields', 'writer', 'query_context', 'isPrototypeOf']
+
+
 def gen_ident(rng):
+    if rng.random() < 0.1:
+        return rng.choice(WORDS)
     n = rng.randint(1, 6)
     s = rng.choice('abcxyzABZ_') + ''.join(rng.choice('abcxyzABZ019_') for _ in range(n - 1))
     return s
@@ -123,6 +131,20 @@ def build_cases(ctx):
     # variable texts from the model's escape
     need = [(p['names'][p['i']], '"' if p['style'] == 'dq' else "'") for p in protos]
     escd = esc_model(need)
+    # second variables: another column, another spelling
+    second = []
+    for p in protos:
+        p['var2'] = None
+        if p['style'] != 'bare' and len(p['names']) > 1 and rng.random() < 0.5:
+            j = rng.choice([x for x in range(len(p['names'])) if x != p['i']])
+            n2 = p['names'][j]
+            st2 = [x for x in ['dq', 'sq'] + (['attr', 'attr'] if is_ident(n2) and not keyword.iskeyword(n2) else []) if x != p['style']]
+            p['_second'] = (j, rng.choice(st2))
+            second.append(p)
+    esc2 = esc_model([(p['names'][p['_second'][0]], '"' if p['_second'][1] == 'dq' else "'") for p in second])
+    for p, e in zip(second, esc2):
+        n2 = p['names'][p['_second'][0]]
+        p['var2'] = {'attr': 'a.' + n2, 'dq': 'a["' + e + '"]', 'sq': "a['" + e + "']"}[p['_second'][1]]
     cases = []
     for p, e in zip(protos, escd):
         n = p['names'][p['i']]
@@ -132,6 +154,10 @@ def build_cases(ctx):
         queries = ['%s %s%s' % (sel, var, suf), '%s NR%s' % (sel, suf), '%s *%s' % (sel, suf)]
         src = p['src']
         c = {'src': src, 'var': var, 'style': p['style'], 'col': p['i'], 'queries': queries, 'flag': p['flag'], 'mod': p['mod'], 'names_all': p['names']}
+        if p.get('var2') is not None:
+            # a second column in ANOTHER spelling in the same query (the attribute store and the subscript store are one object)
+            c['var2'] = p['var2']
+            c['queries'].append('%s %s, %s%s' % (sel, var, p['var2'], suf))
         if src in ('csv', 'csvfile'):
             recs = [p['names']] + p['rows']
             if rng.random() < 0.04:
@@ -153,8 +179,10 @@ def model_expect(cases):
     """entry 528 per (case, query); returns per case the list of expected observations"""
     args = []
     for c in cases:
-        for q in c['queries']:
+        for qi, q in enumerate(c['queries']):
             args.append(lib.enc([c['mkind'], c['flag'], q, c['var'], c['records'], lib.Opt(c['names'])]))
+            if qi == 3:
+                args.append(lib.enc([c['mkind'], c['flag'], q, c['var2'], c['records'], lib.Opt(c['names'])]))
     raw = lib.run_model(528, args)
     out = []
     k = 0
@@ -163,6 +191,10 @@ def model_expect(cases):
         for qi, q in enumerate(c['queries']):
             m = raw[k]
             k += 1
+            m2 = None
+            if qi == 3:
+                m2 = raw[k]
+                k += 1
             if m == 4040404:
                 exp.append({'model': 'ERR'})
                 continue
@@ -183,6 +215,15 @@ def model_expect(cases):
                     e = {'rows': [[r[idx] if idx < len(r) else None] for r in recs], 'index': idx}
             elif qi == 1:
                 e = {'error': True, 'why': 'varmap error'} if vres[0] == 1 else {'rows': [[j + 1] for j in range(len(recs))]}
+            elif qi == 3:
+                v2 = m2[2] if isinstance(m2, (list, tuple)) and len(m2) >= 3 else None
+                if v2 is None or vres[0] == 1 or v2[0] == 1:
+                    e = {'error': True, 'why': 'varmap error'}
+                elif not vres[1] or not v2[1]:
+                    e = {'error': True, 'why': 'variable not bound'} if recs else {'rows': []}
+                else:
+                    i1, i2 = vres[1][0][1], v2[1][0][1]
+                    e = {'rows': [[r[i1] if i1 < len(r) else None, r[i2] if i2 < len(r) else None] for r in recs]}
             else:
                 e = {'error': True, 'why': 'varmap error'} if vres[0] == 1 else {'rows': recs, 'header': hdr}
             e['has_header'] = hdr is not None
@@ -448,7 +489,7 @@ def run(ctx):
     js_got = [canon_got(c, g, exp[i]) for c, g, i in zip(js_cases, js_got, js_idx)]
     ctx.compare([dict(c, impl='js') for c in js_cases], [expc[i] for i in js_idx], js_got, THEOREM + ' (rbql-js leg)',
                 describe=lambda c, e, g: 'rbql-js: ' + describe(c, e, g), shrink=None)
-    ctx.count(len(js_cases) * 3)
+    ctx.count(sum(len(c['queries']) for c in js_cases))
     ctx.stat('js_leg_cases', len(js_cases))
     # ---- JOIN stream
     jc = build_join_cases(ctx)
